@@ -310,10 +310,15 @@ def r23(ctx, cls) -> None:
     cfg = cfg_of(f)
     model = SuspModel(ctx.proj, [DICT])
     real = model.real_nodes(f, cfg)
-    reads = cfg.find(lambda n: any(
+    # the consuming read: the old position is copied into a local (it is the
+    # argument of find_updated); a freshness test before a wait is not it
+    reads = cfg.find(lambda n: n.kind == 'stmt' and isinstance(
+        n.stmt, (ast.Assign, ast.AnnAssign)) and any(
         isinstance(x, ast.Attribute) and x.attr in ('mod_sequence',
                                                     '_mod_sequence')
-        and isinstance(x.ctx, ast.Load) for x in n.walk()))
+        and isinstance(x.ctx, ast.Load)
+        for x in ast.walk(n.stmt.value)) and all(
+        isinstance(t, ast.Name) for t in targets_of(n.stmt)))
     merges = cfg.find(lambda n: any(call_name(c) in ('add_updates',
                                                      'set_messages')
                                     for c in n.calls()))
